@@ -1,8 +1,10 @@
 SPECIFICATION SimSpec
 CONSTANTS
   Users = {"a", "b", "c"}
-  Contracts = {"x", "y"}
+  Contracts = {"x", "y", "s"}
+  Hangers = {"z"}
   Ghosts = {"g"}
+  SyncContracts = {"s"}
   Keys = {"k1", "k2"}
   Prices = {0, 1, 2}
   DefaultCost = 2
